@@ -40,7 +40,7 @@ func (c06) Phases(env run.Env) []run.Phase {
 	return []run.Phase{{Name: "adjacency", N: 256}, {Name: "streams", N: 3000}, {Name: "soak", N: 96}}
 }
 
-var readerKinds = []string{"full", "bufio16", "bufio4096", "one-byte", "random", "random-zeros", "iotest-half"}
+var readerKinds = []string{"full", "bufio16", "bufio4096", "one-byte", "random", "random-zeros", "iotest-half", "bufio-direct16", "bufio-direct4096"}
 
 type halfReader struct{ r io.Reader }
 
@@ -155,6 +155,21 @@ type callEvent struct {
 func c06Judge(c *run.Ctx, s streamCase, rkind string, rd io.Reader) {
 	stream := s.bytes()
 	cr := &mon.CountingReader{R: rd}
+	// what is handed to ReadPacket, and how many bytes it has consumed so far
+	var src io.Reader = cr
+	pos := func() int64 { return cr.N }
+	if strings.HasPrefix(rkind, "bufio-direct") {
+		// the caller's own *bufio.Reader goes to ReadPacket as it is (as a
+		// connection loop does); consumption = bytes drawn by the bufio
+		// reader minus what it still holds
+		size := 16
+		if rkind == "bufio-direct4096" {
+			size = 4096
+		}
+		br := bufio.NewReaderSize(cr, size)
+		src = br
+		pos = func() int64 { return cr.N - int64(br.Buffered()) }
+	}
 	var log []callEvent
 	types := make([]string, 0, len(s.frames)+2)
 	for _, f := range s.frames {
@@ -170,7 +185,7 @@ func c06Judge(c *run.Ctx, s streamCase, rkind string, rd io.Reader) {
 		d["events"] = log
 		c.Violation("C06/"+sig, what+" (reader "+rkind+")", d)
 	}
-	pos := int64(0)
+	off := int64(0)
 	type kept struct {
 		p    mq.Packet
 		snap ref.Flat
@@ -198,13 +213,13 @@ func c06Judge(c *run.Ctx, s streamCase, rkind string, rd io.Reader) {
 			c.Count("skipped", "isolated-read-panics", 1)
 			return // C04's finding, not C06's
 		}
-		before := cr.N
+		before := pos()
 		c.Current(func() string {
-			return fmt.Sprintf("ReadPacket stream=%s offset=%d reader=%s", hexClip(stream, 512), pos, rkind)
+			return fmt.Sprintf("ReadPacket stream=%s offset=%d reader=%s", hexClip(stream, 512), off, rkind)
 		})
-		res := mon.Read(cr)
+		res := mon.Read(src)
 		c.Eval(1)
-		drawn := cr.N - before
+		drawn := pos() - before
 		ev := callEvent{Call: k, PosBefore: before, Drawn: drawn, Expected: int64(h.Total())}
 		switch {
 		case res.Panic != nil:
@@ -237,14 +252,14 @@ func c06Judge(c *run.Ctx, s streamCase, rkind string, rd io.Reader) {
 				keptPkts = append(keptPkts, kept{res.Pkt, sn, k})
 			}
 		}
-		pos += int64(h.Total())
+		off += int64(h.Total())
 	}
 	// after the last frame
-	before := cr.N
+	before := pos()
 	c.Current(func() string {
 		return fmt.Sprintf("ReadPacket(after last) stream=%s reader=%s", hexClip(stream, 512), rkind)
 	})
-	res := mon.Read(cr)
+	res := mon.Read(src)
 	c.Eval(1)
 	if res.Panic != nil {
 		fail("panic/after-last", "ReadPacket panicked after the last frame: "+res.Panic.String())
@@ -255,7 +270,7 @@ func c06Judge(c *run.Ctx, s streamCase, rkind string, rd io.Reader) {
 		if res.Err == nil || !errors.Is(res.Err, io.EOF) || !res.PairOK() {
 			fail("eof", fmt.Sprintf("after the last frame ReadPacket returned packet=%v err=%v, want an error matching io.EOF", res.Pkt != nil, res.Err))
 		}
-		if cr.N != before {
+		if pos() != before {
 			fail("eof-draw", "bytes drawn from an exhausted stream")
 		}
 	default:
